@@ -75,15 +75,15 @@ def merge_(
             else:
                 queue.append(inner_source)
 
+        @synchronized(source.lock)
         def on_completed():
             is_stopped[0] = True
             if active_count[0] == 0:
                 observer.on_completed()
 
+        on_error = synchronized(source.lock)(observer.on_error)
         group.add(
-            source.subscribe(
-                on_next, observer.on_error, on_completed, scheduler=scheduler
-            )
+            source.subscribe(on_next, on_error, on_completed, scheduler=scheduler)
         )
         return group
 
@@ -139,13 +139,15 @@ def merge_all_(
             )
             inner_subscription.disposable = subscription
 
+        @synchronized(source.lock)
         def on_completed():
             is_stopped[0] = True
             if len(group) == 1:
                 observer.on_completed()
 
+        on_error = synchronized(source.lock)(observer.on_error)
         m.disposable = source.subscribe(
-            on_next, observer.on_error, on_completed, scheduler=scheduler
+            on_next, on_error, on_completed, scheduler=scheduler
         )
         return group
 
